@@ -34,6 +34,7 @@ func main() {
 		{"Orch.lean", extractOrch},
 		{"fingerprints.json", extractFingerprints},
 		{"Facts.lean", extractFacts},
+		{"Compile.lean", extractCompile},
 	}
 	for _, g := range gens {
 		s, err := g.fn(*repo)
